@@ -88,67 +88,6 @@ Qed.
 Lemma pinvq_raw ps pre s : PInvQ ps pre s -> path_raw (nskipn ps s).
 Proof. intros [_ H]. apply path_raw_pq. exact H. Qed.
 
-Section Arms.
-Variable dbg : bool.
-Variable hp hpo : list N -> result host.
-Variable hd : host -> list N.
-Variable ovr : option (list N -> list N).
-
-Lemma phap_pre ctx st se ser l ser2 he hi pt rem :
-  parse_host_and_port hp hpo hd ctx st se ser l = POk (ser2, he, hi, pt, rem) -> exists t, ser2 = ser ++ t.
-Proof.
-  unfold parse_host_and_port. intros H. pb H a Ha. destruct a as [host remaining]. cbv zeta in H.
-  pb H he0 Hhe. pb H x Hx. destruct (inp_split_prefix_char 58 remaining) as [rm|].
-  - pb H b Hb. destruct b as [port rem2]. inversion H; subst. destruct pt as [p|].
-    + eexists. rewrite <- app_assoc. reflexivity.
-    + eexists. reflexivity.
-  - inversion H; subst. eexists. reflexivity.
-Qed.
-
-(* ---------- after "//" ---------- *)
-Theorem ads_up st se ser0 l u : nlen ser0 = se + 1 -> nnth ser0 se = Some 58 ->
-  after_double_slash dbg hp hpo hd ovr CUrlParser st se ser0 l = POk u -> up_ok u.
-Proof.
-  intros L0 H58. unfold after_double_slash. cbv zeta. intros H.
-  pb H a Ha. destruct a as [[ser1 ue] rm].
-  assert (nlen (ser0 ++ [47; 47]) = se + 3) as LA by (rewrite nlen_app, L0; change (nlen [47; 47]) with 2; lia).
-  destruct (userinfo_ui_raw st se (ser0 ++ [47; 47]) l ser1 ue rm LA Ha) as (U & B1 & B2 & x & ->).
-  pb H hs Hhs. apply to_u32_eq in Hhs. subst hs.
-  pb H b Hb. destruct b as [[[[ser2 he] hi] pt] rm2]. destruct (phap_pre _ _ _ _ _ _ _ _ _ _ Hb) as (t & ->).
-  match type of H with (if ?c then _ else _) = _ => destruct c; [discriminate|] end.
-  pb H ps Hps. apply to_u32_eq in Hps. subst ps.
-  pb H c Hc. destruct c as [[s3 hh] rm3].
-  destruct (parse_path_start_clean dbg CUrlParser st true _ rm2 s3 hh rm3 Hc) as (P & -> & HP).
-  set (S1 := (ser0 ++ [47; 47]) ++ x) in *. set (S2 := S1 ++ t) in *.
-  assert (nlen S1 <= nlen S2) as L12 by (subst S2; rewrite nlen_app; lia).
-  eapply wqf_up; [exact H | rewrite nlen_app; lia | right | | ].
-  - split; [subst S1; rewrite nlen_app in L12; lia|]. split; [lia|]. split; [exact L12|].
-    subst S2 S1. rewrite <- !app_assoc. rewrite (app_assoc ser0). apply css_after; assumption.
-  - subst S2. rewrite <- app_assoc. apply ui_raw_app; [exact B2 | lia | exact U].
-  - rewrite nskipn_app_exact. apply path_raw_pq. exact HP.
-Qed.
-
-(* ---------- "scheme:/path" and "scheme:opaque" ---------- *)
-Theorem parse_non_special_up st se ser0 l u : nlen ser0 = se + 1 -> nnth ser0 se = Some 58 ->
-  parse_non_special dbg hp hpo hd ovr CUrlParser st se ser0 l = POk u -> up_ok u.
-Proof.
-  intros L0 H58. unfold parse_non_special.
-  destruct (inp_split_prefix_str s_ss l) as [rm|]; [apply ads_up; assumption|].
-  intros H. pb H ps Hps. apply to_u32_eq in Hps. subst ps. pb H a Ha. destruct a as [s1 rem].
-  assert (ps_le : nlen ser0 <= nlen s1 /\ path_raw (nskipn (nlen ser0) s1)).
-  { destruct (inp_split_prefix_char 47 l) as [rm|] eqn:E47.
-    - pb Ha b Hb. destruct b as [[s hh] r]. inversion Ha; subst s1 rem.
-      assert (PInvQ (nlen ser0) ser0 (ser0 ++ [47])) as I1 by (apply pinvq_app; [reflexivity | apply pinvq_start | reflexivity]).
-      pose proof (pinvq_parse_path dbg (nlen ser0) ser0 eq_refl _ _ _ _ _ _ _ _ Hb I1) as I2.
-      split; [exact (pinvq_len (nlen ser0) ser0 eq_refl s I2) | exact (pinvq_raw _ _ _ I2)].
-    - destruct (cbb_path_head l ser0 E47) as (x & Ex & Hx).
-      destruct (parse_cannot_be_a_base_path CUrlParser ser0 l) as [s r]. cbn [fst] in Ex. inversion Ha; subst s1 rem s.
-      split; [rewrite nlen_app; lia | rewrite nskipn_app_exact; exact Hx]. }
-  destruct ps_le as [Lp Pp].
-  eapply wqf_up; [exact H | exact Lp | left; lia | | exact Pp].
-  apply ui_raw_trivial; lia.
-Qed.
-
 (* ---------- a base ---------- *)
 (* what the clauses of a well-formed base give for a serialization that keeps its front *)
 Lemma base_G b s : wf_b b = true -> agree_pre (path_start b) (ser b) s ->
@@ -249,7 +188,7 @@ Proof.
 Qed.
 
 (* "?query" against a base *)
-Lemma query_ref_up b st se0 l s qs fs : wf_b b = true -> up_ok b ->
+Lemma query_ref_up ovr b st se0 l s qs fs : wf_b b = true -> up_ok b ->
   parse_query_and_fragment ovr CUrlParser st se0 (b_before_query b) l = POk (s, qs, fs) -> up_ok (url_with b s qs fs).
 Proof.
   intros W U H. destruct (bq_shape b W) as (Ebq & P1 & P2).
@@ -261,7 +200,7 @@ Proof.
 Qed.
 
 (* a new path behind the front of the base *)
-Lemma base_path_up st b s rem u : wf_b b = true -> up_ok b ->
+Lemma base_path_up ovr st b s rem u : wf_b b = true -> up_ok b ->
   PInvQ (path_start b) (nfirstn (path_start b) (ser b)) s ->
   with_query_and_fragment ovr CUrlParser st (scheme_end b) (username_end b) (host_start b) (host_end b)
     (hosti b) (port b) (path_start b) s rem = POk u -> up_ok u.
@@ -271,6 +210,67 @@ Proof.
   pose proof (pinvq_len _ _ Lp s I) as Ls.
   assert (agree_pre (path_start b) (ser b) s) as Hpre by exact (proj1 I).
   eapply wqf_up; [exact H | exact Ls | exact (base_G b s W Hpre) | exact (base_ui b s W U Hpre) | exact (pinvq_raw _ _ _ I)].
+Qed.
+
+Section Arms.
+Variable dbg : bool.
+Variable hp hpo : list N -> result host.
+Variable hd : host -> list N.
+Variable ovr : option (list N -> list N).
+
+Lemma phap_pre ctx st se ser l ser2 he hi pt rem :
+  parse_host_and_port hp hpo hd ctx st se ser l = POk (ser2, he, hi, pt, rem) -> exists t, ser2 = ser ++ t.
+Proof.
+  unfold parse_host_and_port. intros H. pb H a Ha. destruct a as [host remaining]. cbv zeta in H.
+  pb H he0 Hhe. pb H x Hx. destruct (inp_split_prefix_char 58 remaining) as [rm|].
+  - pb H b Hb. destruct b as [port rem2]. inversion H; subst. destruct pt as [p|].
+    + eexists. rewrite <- app_assoc. reflexivity.
+    + eexists. reflexivity.
+  - inversion H; subst. eexists. reflexivity.
+Qed.
+
+(* ---------- after "//" ---------- *)
+Theorem ads_up st se ser0 l u : nlen ser0 = se + 1 -> nnth ser0 se = Some 58 ->
+  after_double_slash dbg hp hpo hd ovr CUrlParser st se ser0 l = POk u -> up_ok u.
+Proof.
+  intros L0 H58. unfold after_double_slash. cbv zeta. intros H.
+  pb H a Ha. destruct a as [[ser1 ue] rm].
+  assert (nlen (ser0 ++ [47; 47]) = se + 3) as LA by (rewrite nlen_app, L0; change (nlen [47; 47]) with 2; lia).
+  destruct (userinfo_ui_raw st se (ser0 ++ [47; 47]) l ser1 ue rm LA Ha) as (U & B1 & B2 & x & ->).
+  pb H hs Hhs. apply to_u32_eq in Hhs. subst hs.
+  pb H b Hb. destruct b as [[[[ser2 he] hi] pt] rm2]. destruct (phap_pre _ _ _ _ _ _ _ _ _ _ Hb) as (t & ->).
+  match type of H with (if ?c then _ else _) = _ => destruct c; [discriminate|] end.
+  pb H ps Hps. apply to_u32_eq in Hps. subst ps.
+  pb H c Hc. destruct c as [[s3 hh] rm3].
+  destruct (parse_path_start_clean dbg CUrlParser st true _ rm2 s3 hh rm3 Hc) as (P & -> & HP).
+  set (S1 := (ser0 ++ [47; 47]) ++ x) in *. set (S2 := S1 ++ t) in *.
+  assert (nlen S1 <= nlen S2) as L12 by (subst S2; rewrite nlen_app; lia).
+  eapply wqf_up; [exact H | rewrite nlen_app; lia | right | | ].
+  - split; [subst S1; rewrite nlen_app in L12; lia|]. split; [lia|]. split; [exact L12|].
+    subst S2 S1. rewrite <- !app_assoc. rewrite (app_assoc ser0). apply css_after; assumption.
+  - subst S2. rewrite <- app_assoc. apply ui_raw_app; [exact B2 | lia | exact U].
+  - rewrite nskipn_app_exact. apply path_raw_pq. exact HP.
+Qed.
+
+(* ---------- "scheme:/path" and "scheme:opaque" ---------- *)
+Theorem parse_non_special_up st se ser0 l u : nlen ser0 = se + 1 -> nnth ser0 se = Some 58 ->
+  parse_non_special dbg hp hpo hd ovr CUrlParser st se ser0 l = POk u -> up_ok u.
+Proof.
+  intros L0 H58. unfold parse_non_special.
+  destruct (inp_split_prefix_str s_ss l) as [rm|]; [apply ads_up; assumption|].
+  intros H. pb H ps Hps. apply to_u32_eq in Hps. subst ps. pb H a Ha. destruct a as [s1 rem].
+  assert (ps_le : nlen ser0 <= nlen s1 /\ path_raw (nskipn (nlen ser0) s1)).
+  { destruct (inp_split_prefix_char 47 l) as [rm|] eqn:E47.
+    - pb Ha b Hb. destruct b as [[s hh] r]. inversion Ha; subst s1 rem.
+      assert (PInvQ (nlen ser0) ser0 (ser0 ++ [47])) as I1 by (apply pinvq_app; [reflexivity | apply pinvq_start | reflexivity]).
+      pose proof (pinvq_parse_path dbg (nlen ser0) ser0 eq_refl _ _ _ _ _ _ _ _ Hb I1) as I2.
+      split; [exact (pinvq_len (nlen ser0) ser0 eq_refl s I2) | exact (pinvq_raw _ _ _ I2)].
+    - destruct (cbb_path_head l ser0 E47) as (x & Ex & Hx).
+      destruct (parse_cannot_be_a_base_path CUrlParser ser0 l) as [s r]. cbn [fst] in Ex. inversion Ha; subst s1 rem s.
+      split; [rewrite nlen_app; lia | rewrite nskipn_app_exact; exact Hx]. }
+  destruct ps_le as [Lp Pp].
+  eapply wqf_up; [exact H | exact Lp | left; lia | | exact Pp].
+  apply ui_raw_trivial; lia.
 Qed.
 
 (* ---------- relative references ---------- *)
